@@ -39,8 +39,15 @@ pub fn alg_list(n: u8) -> (Vec<webauthn::PublicKeyCredentialParameters>, bool) {
         3 => (vec![param(A::ES256), param(A::RS256)], true),
         4 => (vec![param(A::ES256), param(A::ES256)], true),
         5 => (vec![param(A::RS256)], false),
-        _ => (vec![param(A::EdDSA), param(A::RS256)], false),
+        6 => (vec![param(A::EdDSA), param(A::RS256)], false),
+        // entries of unknown credential *type* carrying an unsupported algorithm: whatever the type is
+        // taken to mean, the list has no supported entry (7) / its first supported entry is ES256 (8)
+        7 => (vec![unknown_type(A::RS256)], false),
+        _ => (vec![unknown_type(A::RS256), param(A::ES256), unknown_type(A::EdDSA)], true),
     }
+}
+fn unknown_type(alg: A) -> webauthn::PublicKeyCredentialParameters {
+    webauthn::PublicKeyCredentialParameters { ty: PublicKeyCredentialType::Unknown, alg }
 }
 pub fn users() -> Vec<(Vec<u8>, String)> {
     vec![
@@ -61,7 +68,7 @@ pub fn cases(tier: Tier) -> Vec<Case> {
     // full product of the small dimensions
     for ch in &chs {
         for org in ORGS {
-            for algs in 0..7u8 {
+            for algs in 0..9u8 {
                 for mode in MODES {
                     for counter in [false, true] {
                         for memory_store in [false, true] {
@@ -338,7 +345,7 @@ pub fn run(ctx: &Ctx) -> Result<Run, String> {
     let single = cs.len() as u64;
     let mut run = Run::from_stats(
         "model_checking",
-        "single registrations: full product of 10 challenges (lengths 0..64, base64url-discriminating bytes) x 6 accepted origin/RP pairs (host=RP, sub-domain, port, IDN, localhost, Android) x 7 algorithm lists x 3 client-data modes x counter on/off x {RefStore, Arc<Mutex<MemoryStore>>}, users x orgs x modes x rk, and all 256 requested credential-id lengths; sequences: BFS over register(rp in 2, user in 2, rk) from the empty and two seeded stores. Every response is verified by an independent relying-party implementation and the store delta is compared. Non-trivial = distinct case that produced a credential or the unsupported-algorithm refusal",
+        "single registrations: full product of 10 challenges (lengths 0..64, base64url-discriminating bytes) x 6 accepted origin/RP pairs (host=RP, sub-domain, port, IDN, localhost, Android) x 9 algorithm lists (incl. entries of unknown credential type that carry an unsupported algorithm) x 3 client-data modes x counter on/off x {RefStore, Arc<Mutex<MemoryStore>>}, users x orgs x modes x rk, and all 256 requested credential-id lengths; sequences: BFS over register(rp in 2, user in 2, rk) from the empty and two seeded stores. Every response is verified by an independent relying-party implementation and the store delta is compared. Non-trivial = distinct case that produced a credential or the unsupported-algorithm refusal",
         true,
         stats,
     );
